@@ -598,6 +598,7 @@ func c03Defects() []spDefect {
 		{"ap-renewable-expired", func(c *spCase, r *RNG) { c.ap.renewable = true; c.ap.endOff = -time.Hour }},
 		{"ap-reqhost", func(c *spCase, r *RNG) { c.ap.reqHost = true }},
 		{"ap-clientaddr-configured", func(c *spCase, r *RNG) { c.ap.clientAddr = &v4b }},
+		{"ap-invalid+nostart", func(c *spCase, r *RNG) { c.ap.invalid = true; c.ap.noStart = true }},
 		{"ap-pac-valid", func(c *spCase, r *RNG) { c.ap.pac = "valid" }},
 		// ... with a session manager: what is stored for the requests of the session is the identity that was served
 		// (the PAC's account name is not the ticket's client name string)
